@@ -145,7 +145,10 @@ def bounded(pb, interp, rng, tier):
         # refusals
         for what, fn in [("reduce", lambda: np.add.reduce(s)), ("accumulate", lambda: np.add.accumulate(s)),
                          ("outer", lambda: np.add.outer(s, s)), ("matmul", lambda: np.matmul(s, s)),
-                         ("sum", lambda: np.sum(s))]:
+                         ("sum", lambda: np.sum(s)),
+                         # generalised ufuncs contract / re-shape axes like matmul does
+                         ("vecdot", lambda: np.vecdot(s, s)), ("matvec", lambda: np.matvec(s, np.ones(s.shape[-1]))),
+                         ("vecmat", lambda: np.vecmat(np.ones(s.shape[0]), s) if s.ndim == 2 else np.matmul(s, s))]:
             ev += 1
             distinct.add(f"refuse.{what},{cname},{be}")
             try:
@@ -168,6 +171,32 @@ def bounded(pb, interp, rng, tier):
             except Exception as e:
                 fail(f"protocol.{what}", f"{cname},{be}", repr(e))
 
+    # first signal operand wins, also when a later operand is of a subclass (NumPy dispatches to subclasses first)
+    import astropy.units as u
+    from astropy.time import Time
+    base = pb.Signal(np.arange(8.).reshape(4, 2), sample_rate=1 * u.Hz, start_time=Time(59000., format="mjd"), meta={"who": "first"})
+    sub = pb.RadioSignal(np.ones((4, 2)), sample_rate=5 * u.kHz, center_freq=1 * u.GHz, chan_bw=1 * u.MHz, meta={"who": "second"})
+    for what, fn in (("binop", lambda: base + sub), ("ufunc", lambda: np.multiply(base, sub))):
+        ev += 1
+        distinct.add(f"subclass-second.{what}")
+        try:
+            r = fn()
+            if type(r) is not pb.Signal or r.sample_rate != base.sample_rate or r.meta != base.meta or r.start_time is None:
+                fail(f"first-operand.subclass-second.{what}", "Signal (op) RadioSignal", f"{type(r).__name__} at {r.sample_rate}, meta {r.meta}")
+        except Exception as e:
+            fail(f"first-operand.subclass-second.{what}", "Signal (op) RadioSignal", repr(e))
+    # a signal used as the where= mask of an out= call
+    for be_ in ("numpy",):
+        sig = pb.Signal(np.arange(8.).reshape(4, 2) + 1, sample_rate=1 * u.Hz)
+        exp = np.add(np.asarray(sig.data), 100, out=np.asarray(sig.data).copy(), where=np.asarray(sig.data) > 3)
+        ev += 1
+        distinct.add("where-signal")
+        try:
+            r = np.add(sig, 100, out=sig, where=sig > 3)
+            if r is not sig or not np.array_equal(np.asarray(sig.data), exp):
+                fail("where.signal-mask", "np.add(sig, 100, out=sig, where=sig > 3)", "wrong values / not the out signal")
+        except (Exception, RecursionError) as e:
+            fail("where.signal-mask", "np.add(sig, 100, out=sig, where=sig > 3)", type(e).__name__)
     for be in ("numpy", "dask"):
         sigs = _signals(pb, rng, be)
         for s in sigs:
